@@ -34,6 +34,7 @@ CODES = {
     17: "the implementation accepts (IsDefaulted and Validate) a spec the model does not: a field the reconcilers dereference is unset, "
         "or a combination that validation has to reject (manual mode with a duration, thresholds out of order, ...)",
     13: "validation crashed on a defaulted spec",
+    18: "defaulting changed a value the user set",
     15: "the replica-set sync crashed although the parent's spec is defaulted and valid",
     16: "the ExtendedDaemonSet reconcile crashed",
     20: "harness panic",
